@@ -22,6 +22,7 @@ import (
 	"os"
 	"os/exec"
 	"path/filepath"
+	"regexp"
 	"runtime"
 	"strconv"
 	"strings"
@@ -359,14 +360,26 @@ func tpRepeat(args []string) error {
 		// move, cell contents may not -> compare the CSV as a set of lines per table
 		rng2 := newRand(int64(1000 + i))
 		files2 := tpGenFiles(rng2, dir, i, true)
-		a, err1 := exec.Command(bin, append([]string{"-format", "csv"}, files...)...).Output()
-		b, err2 := exec.Command(bin, append([]string{"-format", "csv"}, files2...)...).Output()
-		if err1 != nil || err2 != nil {
-			return fmt.Errorf("benchstat: %v %v", err1, err2)
-		}
-		r.Runs += 2
-		if d := tpCellDiff(string(a), string(b), files, files2); d != "" {
-			r.Failures = append(r.Failures, fmt.Sprintf("input %d: permuting result lines changed cell content: %s", i, d))
+		for _, flags := range [][]string{nil, {"-table", "pkg", "-row", ".name"}, {"-row", ".name,/k", "-col", "goos"}} {
+			run := func(fs []string) (string, string, error) {
+				cmd := exec.Command(bin, append(append([]string{"-format", "csv"}, flags...), fs...)...)
+				var so, se bytes.Buffer
+				cmd.Stdout, cmd.Stderr = &so, &se
+				err := cmd.Run()
+				return so.String(), se.String(), err
+			}
+			a, wa, err1 := run(files)
+			b, wb, err2 := run(files2)
+			if err1 != nil || err2 != nil {
+				return fmt.Errorf("benchstat %v: %v %v", flags, err1, err2)
+			}
+			r.Runs += 2
+			if d := tpCellDiff(a, b, files, files2); d != "" {
+				r.Failures = append(r.Failures, fmt.Sprintf("input %d flags %v: permuting result lines changed cell content: %s", i, flags, d))
+			}
+			if d := tpCellDiff(tpWarnings(a, wa), tpWarnings(b, wb), files, files2); d != "" {
+				r.Failures = append(r.Failures, fmt.Sprintf("input %d flags %v: permuting result lines changed a cell's warnings: %s", i, flags, d))
+			}
 		}
 	}
 	data, _ := json.Marshal(r)
@@ -377,17 +390,20 @@ func tpRepeat(args []string) error {
 // every configuration block are shuffled (same multiset of lines per block).
 func tpGenFiles(rng *rand.Rand, dir string, i int, permute bool) []string {
 	nfiles := 2 + rng.Intn(2)
-	names := []string{"Alpha", "Beta/k=1", "Beta/k=2", "Gamma-8", "Delta/x=y-4"}
+	names := []string{"Alpha", "Beta/k=1", "Beta/k=2", "Beta/k=3-2", "Gamma-8", "Gamma-4", "Delta/x=y-4"}
 	var files []string
 	perm := rand.New(rand.NewSource(int64(i)*7 + 5))
 	for f := 0; f < nfiles; f++ {
 		var sb strings.Builder
-		nblocks := 1 + rng.Intn(2)
+		nblocks := 1 + rng.Intn(3)
 		for b := 0; b < nblocks; b++ {
 			fmt.Fprintf(&sb, "goos: os%d\npkg: p\n\n", b)
 			var lines []string
-			for _, nm := range names {
-				if rng.Intn(5) == 0 {
+			order := rng.Perm(len(names))
+			for _, ni := range order {
+				nm := names[ni]
+				// blocks carry different subsets of the benchmarks, in different orders
+				if rng.Intn(5) < 2 {
 					continue
 				}
 				reps := 3 + rng.Intn(5)
@@ -410,6 +426,31 @@ func tpGenFiles(rng *rand.Rand, dir string, i int, permute bool) []string {
 		files = append(files, p)
 	}
 	return files
+}
+
+var tpWarnRe = regexp.MustCompile(`^([A-Z]+)([0-9]+): (.*)$`)
+
+// tpWarnings rewrites the CSV warnings (stderr, "B7: message") as
+// "column|row label|message" lines, so that they can be compared when rows move.
+func tpWarnings(stdout, stderr string) string {
+	lines := strings.Split(stdout, "\n")
+	var out []string
+	for _, w := range strings.Split(stderr, "\n") {
+		m := tpWarnRe.FindStringSubmatch(w)
+		if m == nil {
+			if w != "" {
+				out = append(out, w)
+			}
+			continue
+		}
+		n, _ := strconv.Atoi(m[2])
+		label := "?"
+		if n >= 1 && n <= len(lines) {
+			label = strings.SplitN(lines[n-1], ",", 2)[0]
+		}
+		out = append(out, m[1]+"|"+label+"|"+m[3])
+	}
+	return strings.Join(out, "\n")
 }
 
 // tpCellDiff compares two CSV outputs as multisets of data lines (row order may
